@@ -12,7 +12,7 @@ CONSTANTS Universe,     \* "lit" | "iri" | "pair"
           LitClasses, LitMaxLen, LitQuals,     \* literal strings / qualifiers
           IriClasses, IriMaxLen,               \* IRI strings (universe "iri")
           Fmts,
-          Legacy        \* "" | "ser" | "parse"  (self-test: which Legacy step replaces the reference one)
+          Legacy        \* "" | "ser" | "merge" | "ws"  (self-test: which Legacy step replaces the reference one)
 VARIABLE hist
 vars == <<stage, graph, fmt, doc, res, out, hist>>
 
@@ -22,9 +22,14 @@ A == <<"pl">>
 \* universe "lit": one statement, every literal over the class alphabet in object position
 LitCases == {<<Tr(Iri(A), Iri(A), Lit(v, q))>> : v \in Strs(LitClasses, LitMaxLen), q \in LitQuals}
 
-\* universe "iri": one statement, IRIs over the class alphabet in all three positions (blank subjects too)
-IriStrs == Strs(IriClasses, IriMaxLen)
-IriCases == {<<Tr(s, Iri(p), Iri(o))>> : s \in {Iri(v) : v \in IriStrs} \cup {Bn("b1")}, p \in IriStrs, o \in IriStrs}
+\* universe "iri": one statement; IRI strings of <= 1 class in all three positions at once (blank subject too), and
+\* every IRI string of <= IriMaxLen classes in each single position (the other positions plain)
+IriStrs(n) == Strs(IriClasses, n)
+IriShort == IF IriMaxLen < 1 THEN IriStrs(IriMaxLen) ELSE IriStrs(1)
+IriCases == {<<Tr(s, Iri(p), Iri(o))>> : s \in {Iri(v) : v \in IriShort} \cup {Bn("b1")}, p \in IriShort, o \in IriShort}
+            \cup {<<Tr(Iri(v), Iri(A), Iri(A))>> : v \in IriStrs(IriMaxLen)}
+            \cup {<<Tr(Iri(A), Iri(v), Iri(A))>> : v \in IriStrs(IriMaxLen)}
+            \cup {<<Tr(Iri(A), Iri(A), Iri(v))>> : v \in IriStrs(IriMaxLen)}
 
 \* universe "pair": the empty graph, and every sequence of 1 or 2 distinct statements over a small term universe that
 \* exercises blank node structure (shared / distinct / subject+object), statement grouping and mixed literal kinds
@@ -41,7 +46,7 @@ Init == RInit /\ hist = <<>>
 Next ==
     \/ \E ts \in Cases, f \in Fmts : Build(ToSet(ts), f) /\ hist' = <<[op |-> "RoundTrip", fmt |-> f, ts |-> ts]>>
     \/ (IF Legacy = "ser" THEN LegacySerialize ELSE Serialize) /\ UNCHANGED hist
-    \/ (IF Legacy = "parse" THEN LegacyParse ELSE Parse) /\ UNCHANGED hist
+    \/ (IF Legacy \in {"merge", "ws"} THEN LegacyParse(Legacy) ELSE Parse) /\ UNCHANGED hist
 Spec == Init /\ [][Next]_vars
 
 \* one script per case
